@@ -3,6 +3,7 @@
   Connection-task part: what is written to disk and when `PieceDone` is reported; manager part: a piece becomes
   owned only by `PieceDone`, and a task that ends in error gives its piece back (theorems of C12 re-used).
 -/
+import RdestModel.Lemmas.Loop
 import RdestModel.Meta.Name
 import RdestModel.Lemmas.Trace
 import RdestModel.Lemmas.Sd
@@ -708,5 +709,258 @@ theorem C01_trace_fresh (sha1 : Bytes → Bytes) (s : HState) (halive : s.alive 
   have := C01_trace sha1 s halive script
   simp only [hashOf, hrx, Option.map_none] at this
   exact this
+
+/-! ### The whole client: any number of connection tasks and the manager in closed loop (`Swarm/Loop.lean`) -/
+
+section Whole
+open Rdest.Swarm.Loop
+
+theorem sdO_of_pieceDone (o : List HOut) (h : Cmd.pieceDone ∈ cmdsOf o) : false ∈ sdO o := by
+  induction o with
+  | nil => simp [cmdsOf] at h
+  | cons x xs ih =>
+    cases x with
+    | write m => simp only [cmdsOf_write] at h; change false ∈ sdO xs; exact ih h
+    | save hh dd => simp only [cmdsOf_save] at h; change false ∈ true :: sdO xs; exact List.mem_cons_of_mem _ (ih h)
+    | load hh => simp only [cmdsOf_load] at h; change false ∈ sdO xs; exact ih h
+    | cmd c =>
+      simp only [cmdsOf_cmd, List.mem_cons] at h
+      cases c with
+      | pieceDone => change false ∈ false :: sdO xs; exact List.mem_cons_self
+      | init _ => rcases h with h | h; (cases h); change false ∈ sdO xs; exact ih h
+      | recvChoke => rcases h with h | h; (cases h); change false ∈ sdO xs; exact ih h
+      | recvUnchoke => rcases h with h | h; (cases h); change false ∈ sdO xs; exact ih h
+      | recvInterested => rcases h with h | h; (cases h); change false ∈ sdO xs; exact ih h
+      | recvNotInterested => rcases h with h | h; (cases h); change false ∈ sdO xs; exact ih h
+      | recvHave _ => rcases h with h | h; (cases h); change false ∈ sdO xs; exact ih h
+      | recvBitfield _ => rcases h with h | h; (cases h); change false ∈ sdO xs; exact ih h
+      | recvRequest _ => rcases h with h | h; (cases h); change false ∈ sdO xs; exact ih h
+      | pieceCancel => rcases h with h | h; (cases h); change false ∈ sdO xs; exact ih h
+
+theorem any_isSave_of_savesO (sha1 : Bytes → Bytes) (o : List HOut) (h : savesO sha1 o ≠ []) : o.any isSave = true := by
+  induction o with
+  | nil => simp [savesO] at h
+  | cons x xs ih =>
+    cases x with
+    | save hh dd => simp [isSave]
+    | write m => simp only [savesO, List.filterMap_cons] at h; simp [isSave, ih h]
+    | cmd c => simp only [savesO, List.filterMap_cons] at h; simp [isSave, ih h]
+    | load hh => simp only [savesO, List.filterMap_cons] at h; simp [isSave, ih h]
+
+theorem savesO_length (sha1 : Bytes → Bytes) (o : List HOut) : (savesO sha1 o).length = (sdO o).count true := by
+  induction o with
+  | nil => rfl
+  | cons y ys ih =>
+    cases y with
+    | write m => change (savesO sha1 ys).length = (sdO ys).count true; exact ih
+    | load h => change (savesO sha1 ys).length = (sdO ys).count true; exact ih
+    | save h d => change ((h, sha1 d, d.length) :: savesO sha1 ys).length = (true :: sdO ys).count true; simp [ih]
+    | cmd c =>
+      cases c <;> first
+        | (change (savesO sha1 ys).length = (sdO ys).count true; exact ih)
+        | (change (savesO sha1 ys).length = (false :: sdO ys).count true; simp [ih])
+
+theorem step01c_none_of_done (st : M01) (inp : TIn) (obs : List Obs) (e : Option Bool)
+    (hbad : sdExpr obs ≠ (if (savedObs obs).isEmpty then [] else [true, false])) : step01c st inp obs e = none := by
+  unfold step01c
+  have hd : decide (sdExpr obs = if (savedObs obs).isEmpty then [] else [true, false]) = false := decide_eq_false hbad
+  simp only [hd, Bool.and_false, Bool.not_false, if_true]
+
+theorem step01c_none_of_want (st : M01) (inp : TIn) (obs : List Obs) (e : Option Bool) (n dh : Bytes) (l : Nat)
+    (hs : savedObs obs = [(n, dh, l)]) (hw : st.want ≠ some n) : step01c st inp obs e = none := by
+  unfold step01c
+  have hd : decide (st.want = some n ∧ dh = n) = false := decide_eq_false (fun c => hw c.1)
+  simp only [hs, hd, Bool.false_and, Bool.not_false, if_true]
+
+/-- A task reports `PieceDone` only in a step in which it wrote a piece file, and only while it is fetching a piece
+    (from `step01_sound`, the soundness of the C01 monitor, applied to this one step). -/
+theorem pieceDone_saves (sha1 : Bytes → Bytes) (d : Option (Bytes × Bytes)) (t : HState) (inp : HIn) (t' : HState)
+    (outs : List HOut) (e : Option Bool) (h : hstep sha1 (diskOf d) t inp = some (t', outs, e))
+    (hm : Cmd.pieceDone ∈ cmdsOf outs) : t.pieceRx.isSome = true ∧ outs.any isSave = true := by
+  cases hal : t.alive with
+  | false =>
+    simp only [hstep, hal, Bool.not_false, if_true, Option.some.injEq, Prod.mk.injEq] at h
+    obtain ⟨_, rfl, _⟩ := h
+    simp [cmdsOf] at hm
+  | true =>
+    have hg : (!t.alive) = false := by simp [hal]
+    -- the inputs through which a piece can be completed or re-assigned are those of the trace model
+    have key : ∀ (ti : TIn), tstep sha1 t ti = some (t', outs, e) → t.pieceRx.isSome = true ∧ outs.any isSave = true := by
+      intro ti hts
+      obtain ⟨st', hacc, _⟩ := step01_sound sha1 { want := hashOf t, alive := t.alive } t ti t' outs e ⟨rfl, fun _ => rfl⟩ hts
+      have hacc2 : step01c { want := hashOf t, alive := t.alive } ti (outs.filterMap (obsOf sha1)) e = some st' := by
+        unfold step01 at hacc
+        rw [if_neg (by simp [hal])] at hacc
+        exact hacc
+      have hf := sdO_of_pieceDone outs hm
+      -- the order expression is what the monitor demands
+      have hdone : sdExpr (outs.filterMap (obsOf sha1)) =
+          (if (savedObs (outs.filterMap (obsOf sha1))).isEmpty then [] else [true, false]) := by
+        by_cases hq : sdExpr (outs.filterMap (obsOf sha1)) =
+            (if (savedObs (outs.filterMap (obsOf sha1))).isEmpty then [] else [true, false])
+        · exact hq
+        · rw [step01c_none_of_done _ _ _ _ hq] at hacc2
+          cases hacc2
+      rw [doneExpr_obs, savedObs_obs] at hdone
+      cases hsv : savesO sha1 outs with
+      | nil => rw [hsv] at hdone; simp at hdone; rw [hdone] at hf; cases hf
+      | cons x xs =>
+        refine ⟨?_, any_isSave_of_savesO sha1 outs (by rw [hsv]; simp)⟩
+        have hsd : sdO outs = [true, false] := by rw [hdone, hsv]; rfl
+        -- exactly one store (one `true` in the order expression)
+        obtain ⟨n, dh, l⟩ := x
+        have hone : xs = [] := by
+          have hlen := savesO_length sha1 outs
+          rw [hsv, hsd] at hlen
+          simp at hlen
+          exact hlen
+        subst hone
+        by_cases hw : hashOf t = some n
+        · unfold hashOf at hw
+          cases hp : t.pieceRx with
+          | none => rw [hp] at hw; cases hw
+          | some _ => rfl
+        · rw [step01c_none_of_want _ _ _ _ n dh l (by rw [savedObs_obs, hsv]) hw] at hacc2
+          cases hacc2
+    cases inp with
+    | frame m rep => exact key (.frame m rep d) h
+    | bcHave i rep => exact key (.bcHave i rep) h
+    | eof => simp only [hstep, hg, Bool.false_eq_true, if_false, terminate, Option.some.injEq, Prod.mk.injEq] at h; rw [← h.2.1] at hm; simp [cmdsOf] at hm
+    | recvErr => simp only [hstep, hg, Bool.false_eq_true, if_false, terminate, Option.some.injEq, Prod.mk.injEq] at h; rw [← h.2.1] at hm; simp [cmdsOf] at hm
+    | start => simp only [hstep, hg, Bool.false_eq_true, if_false, Option.some.injEq, Prod.mk.injEq] at h; rw [← h.2.1] at hm; simp [cmdsOf] at hm
+    | bcState en =>
+      simp only [hstep, hg, Bool.false_eq_true, if_false] at h
+      split at h <;> (simp only [Option.some.injEq, Prod.mk.injEq] at h; rw [← h.2.1] at hm; simp [cmdsOf] at hm)
+    | tick =>
+      simp only [hstep, hg, Bool.false_eq_true, if_false] at h
+      split at h <;> (simp only [terminate, Option.some.injEq, Prod.mk.injEq] at h; rw [← h.2.1] at hm; simp [cmdsOf] at hm)
+
+/-- The only command whose handling makes a piece owned is `PieceDone`, and the piece is the sender's assigned one. -/
+theorem handled_have (T : Torrent) (a : Nat) (m m1 : MState) (cs : List Cmd) (rep : Rep)
+    (hH : Handled T a m cs rep m1) (i : Nat) (hnew : m1.statuses[i]? = some .have) (hold : m.statuses[i]? ≠ some .have) :
+    cs = [.pieceDone] ∧ ∃ p, findPeer m a = some p ∧ p.pieceIndex = some i := by
+  have viaT3 : ∀ ev r, mstep m ev = .ok m1 r → ∃ a' chosen p, ev = .pieceDone a' chosen ∧ findPeer m a' = some p ∧ p.pieceIndex = some i :=
+    fun ev r hm => T3_owned_only_by_piece_done m m1 ev r hm i hold hnew
+  cases cs with
+  | nil => simp only [Handled] at hH; rw [hH] at hnew; exact absurd hnew hold
+  | cons c rest =>
+    cases rest with
+    | cons c2 r2 => cases c <;> simp [Handled] at hH
+    | nil =>
+      cases c with
+      | init pid => simp only [Handled] at hH; rw [hH] at hnew; exact absurd hnew hold
+      | recvRequest idx => simp only [Handled] at hH; rw [hH] at hnew; exact absurd hnew hold
+      | recvChoke => simp only [Handled] at hH; obtain ⟨_, _, _, he, _⟩ := viaT3 _ _ hH; cases he
+      | recvInterested => simp only [Handled] at hH; obtain ⟨_, _, _, he, _⟩ := viaT3 _ _ hH; cases he
+      | recvUnchoke => simp only [Handled] at hH; obtain ⟨_, _, hm, _⟩ := hH; obtain ⟨_, _, _, he, _⟩ := viaT3 _ _ hm; cases he
+      | recvNotInterested => simp only [Handled] at hH; obtain ⟨_, _, hm, _⟩ := hH; obtain ⟨_, _, _, he, _⟩ := viaT3 _ _ hm; cases he
+      | recvHave j => simp only [Handled] at hH; obtain ⟨_, hm, _⟩ := hH; obtain ⟨_, _, _, he, _⟩ := viaT3 _ _ hm; cases he
+      | recvBitfield bs => simp only [Handled] at hH; obtain ⟨_, _, _, hm, _⟩ := hH; obtain ⟨_, _, _, he, _⟩ := viaT3 _ _ hm; cases he
+      | pieceCancel => simp only [Handled] at hH; obtain ⟨_, _, hm, _⟩ := hH; obtain ⟨_, _, _, he, _⟩ := viaT3 _ _ hm; cases he
+      | pieceDone =>
+        simp only [Handled] at hH
+        obtain ⟨_, _, hm, _⟩ := hH
+        obtain ⟨a', ch, p, he, hp, hpi⟩ := viaT3 _ _ hm
+        cases he
+        exact ⟨rfl, p, hp, hpi⟩
+
+theorem afterEnd_have (a : Nat) (e : Option Bool) (m : MState) (i : Nat)
+    (hnew : (afterEnd a e m).statuses[i]? = some .have) : m.statuses[i]? = some .have := by
+  unfold afterEnd at hnew
+  cases e with
+  | none => exact hnew
+  | some b =>
+    simp only at hnew
+    cases hk : mstep m (.kill a) with
+    | panic w => rw [hk] at hnew; exact hnew
+    | ok m' r =>
+      rw [hk] at hnew
+      by_cases hold : m.statuses[i]? = some .have
+      · exact hold
+      · obtain ⟨_, _, _, he, _⟩ := T3_owned_only_by_piece_done m m' _ r hk i hold hnew
+        cases he
+
+/-- **T6 (C01, the whole client).** Any number of connection tasks and the manager running in closed loop — every
+    reply a task gets is the manager's answer to the command it sent, connections are added at any time, their steps are
+    interleaved arbitrarily, every input (any frames in any order, broadcasts, ticks, stream ends) and every outcome of
+    the chooser is allowed. In every reachable state, a piece the manager treats as owned is one for which some task has
+    written a piece file while it was fetching exactly that piece — and (`C01_trace`, `T1_store_only_verified`) a task
+    writes a file only with data that hash to the listed hash it was given for the piece it fetches. -/
+theorem T6_whole_client_owned_pieces_have_been_stored (T : Torrent) (sha1 : Bytes → Bytes) (S : Sys)
+    (h : SysReach T sha1 S) (i : Nat) (hi : S.m.statuses[i]? = some .have) : i ∈ S.stored := by
+  induction h generalizing i with
+  | init n dead _ =>
+    simp only [List.getElem?_replicate] at hi
+    split at hi <;> simp at hi
+  | step S S' hr hs ih =>
+    have hlink := allLinked_reach T sha1 S hr
+    cases hs with
+    | connect a t m' hnone hfresh hadd =>
+      simp only [mstep, Out.ok.injEq] at hadd
+      obtain ⟨rfl, _⟩ := hadd
+      exact ih i hi
+    | own a d inp m' t' outs hstep =>
+      obtain ⟨e, m1, hh, hH, rfl⟩ := hstep
+      have h1 := afterEnd_have a e m1 i hi
+      simp only
+      by_cases hold : S.m.statuses[i]? = some .have
+      · exact List.mem_append_right _ (ih i hold)
+      · obtain ⟨hcs, p, hp, hpi⟩ := handled_have T a S.m m1 _ _ hH i h1 hold
+        have hmem : Cmd.pieceDone ∈ cmdsOf outs := by rw [hcs]; simp
+        obtain ⟨hrx, hsave⟩ := pieceDone_saves sha1 d (S.tasks a) inp t' outs e hh hmem
+        -- the task is alive (a dead task emits nothing), so it is linked
+        have hal : (S.tasks a).alive = true := by
+          cases hal : (S.tasks a).alive with
+          | true => rfl
+          | false =>
+            simp only [hstep, hal, Bool.not_false, if_true, Option.some.injEq, Prod.mk.injEq] at hh
+            obtain ⟨_, rfl, _⟩ := hh
+            simp [cmdsOf] at hmem
+        obtain ⟨p', hp', hrx', _, hidx⟩ := hlink a hal
+        rw [hp] at hp'; cases hp'
+        cases hprx : (S.tasks a).pieceRx with
+        | none => rw [hprx] at hrx; cases hrx
+        | some rx =>
+          rw [hprx] at hrx'
+          have : p.pieceIndex = some rx.index := hidx rx.index hrx'.symm
+          rw [hpi] at this; cases this
+          apply List.mem_append_left
+          simp [savedIdx, hsave, hprx]
+
+/-- **T6b (the premise of the manager model justified).** In every reachable state of the whole client, when a task
+    reports `PieceDone` the manager has that connection recorded as fetching a piece (`rx`), which is its assigned piece —
+    the enabledness condition under which the C12/C02 theorems quantify over `pieceDone` events (`Enabled`), here derived
+    from the tasks' behaviour instead of assumed. -/
+theorem T6_piece_done_only_while_assigned (T : Torrent) (sha1 : Bytes → Bytes) (S : Sys) (h : SysReach T sha1 S)
+    (a : Nat) (d : Option (Bytes × Bytes)) (inp : HIn) (t' : HState) (outs : List HOut) (e : Option Bool)
+    (hh : hstep sha1 (diskOf d) (S.tasks a) inp = some (t', outs, e)) (hm : Cmd.pieceDone ∈ cmdsOf outs) :
+    Enabled S.m (.pieceDone a none) ∧ ∃ p y, findPeer S.m a = some p ∧ p.rx = some y ∧ p.pieceIndex = some y := by
+  obtain ⟨hrx, _⟩ := pieceDone_saves sha1 d (S.tasks a) inp t' outs e hh hm
+  have hal : (S.tasks a).alive = true := by
+    cases hal : (S.tasks a).alive with
+    | true => rfl
+    | false =>
+      simp only [hstep, hal, Bool.not_false, if_true, Option.some.injEq, Prod.mk.injEq] at hh
+      obtain ⟨_, rfl, _⟩ := hh
+      simp [cmdsOf] at hm
+  obtain ⟨p, hp, hrx', _, hidx⟩ := allLinked_reach T sha1 S h a hal
+  cases hprx : (S.tasks a).pieceRx with
+  | none => rw [hprx] at hrx; cases hrx
+  | some rx =>
+    rw [hprx] at hrx'
+    exact ⟨⟨p, rx.index, hp, hrx'.symm⟩, p, rx.index, hp, hrx'.symm, hidx _ hrx'.symm⟩
+
+/-- Non-vacuity (test): a reachable state of the whole client with a live connection task, linked to its record. -/
+example : ∃ S, SysReach ⟨[[7]], fun _ => 1⟩ id S ∧ (S.tasks 0).alive = true ∧ AllLinked S := by
+  let T : Torrent := ⟨[[7]], fun _ => 1⟩
+  let t0 : HState := { infoHash := [1], ownId := [2], piecesNum := 1 }
+  let S0 : Sys := { m := { statuses := [.missing], peers := [] }, tasks := fun _ => { t0 with alive := false }, stored := [] }
+  have r0 : SysReach T id S0 := SysReach.init 1 _ (fun _ => rfl)
+  let m1 : MState := { statuses := [.missing], peers := [{ addr := 0, pieces := [false] }] }
+  have r1 : SysReach T id { S0 with m := m1, tasks := updateTask S0.tasks 0 t0 } :=
+    SysReach.step S0 _ r0 (SysStep.connect S0 0 t0 m1 rfl ⟨rfl, rfl, rfl⟩ rfl)
+  exact ⟨_, r1, rfl, allLinked_reach T id _ r1⟩
+
+end Whole
 
 end Rdest.Props.C01
